@@ -114,6 +114,7 @@ def _env():
     import segchecks
     import c12_lib
     app = segchecks.get_app()
+    c12_lib.ensure_streams(app)
     return app, app.client(), appboot, segchecks, c12_lib
 
 
@@ -635,7 +636,8 @@ def ch_offsets(ctx) -> Channel:
     ch = Channel("mps_offsets", rule=(
         "per stream (bbb: 2 video, 2 audio 44.1 kHz vs 240 Hz reference, 1 text; tears: 48 kHz audio; syn1 "
         "irregular durations; syn2 90 kHz, audio without tfdt; syn3/syn5 fragments numbered from 7/0; syn4 audio "
-        "reference; syn7 NTSC; syn8 two segments; syn9 very long + short segment, stored stream defaults) one "
+        "reference; syn7 NTSC; syn8 two segments; syn9 very long + short segment, stored stream defaults; c12t1/"
+        "c12t2 fractional-second reference ending in a 0.8 s / 0.2 s segment, short first segment) one "
         "multi-period stream with a Period at a FIXED grid of source offsets per track: start, half-segment point "
         "-1/0/+1 us and the tick after it for segments 0, 1, middle, last (thorough: every segment, +1 ms), the "
         "exact end and beyond it; for the track the offset was derived from and the reference video (thorough: "
